@@ -5,7 +5,7 @@
     No theorem is about this file. *)
 From Coq Require Import List String NArith Bool Arith.
 From FP Require Import Model.Chars Model.Ast Model.Sexp Model.Parse Model.Compile Model.Ser.
-From FP Require Import Spec.GuileReader Spec.FileRecord Spec.FindSem Spec.SchemeSem Spec.SchemePrelude.
+From FP Require Import Spec.GuileReader Spec.FileRecord Spec.FindSem Spec.SchemeSem Spec.SchemePrelude Spec.Unsupported.
 Import ListNotations.
 Local Open Scope string_scope.
 Local Open Scope list_scope.
@@ -140,4 +140,42 @@ Definition obs_eval (args : list str) : str :=
         end in
       w "EVAL spec=" ++ spec ++ w " || prog=" ++ prog
   | _ => w "BAD-CASE"
+  end.
+
+
+(** * Debug rendering of the first unsupported construct (what CompileError's text carries after
+    the variant name): Rust's `{:?}` of a String for the ASCII range; characters above 0x7f are
+    copied (the comparison skips payloads containing them, their escaping depends on Unicode
+    tables that are not modelled) *)
+Definition debug_char (c : N) : str :=
+  if c =? 34 then w "\""" else if c =? 92 then w "\\" else if c =? 10 then w "\n"
+  else if c =? 13 then w "\r" else if c =? 9 then w "\t" else if c =? 0 then w "\0"
+  else if (c <? 32) || (c =? 127) then w "\u{" ++ print_hex c ++ w "}"
+  else [c].
+Definition debug_string (u : str) : str := [34] ++ flat_map debug_char u ++ [34].
+Definition test_payload (t : test) : option str :=
+  match t with
+  | TAccessNewer u | TChangeNewer u | TFsType u | TGroup u | TInsensitiveLinkName u
+  | TInsensitiveRegex u | TLinkName u | TModifyNewer u | TRegex u | TSamefile u | TUser u => Some u
+  | _ => None
+  end.
+Fixpoint first_payload (e : expr) : option (option str) :=
+  (* Some (Some u): first unsupported construct has the string payload u; Some None: it has none *)
+  match e with
+  | ETest t => match Spec.Unsupported.bad_test t with
+               | Some _ => Some (test_payload t)
+               | None => None
+               end
+  | EAction (AFileList u) => Some (Some u)
+  | EAction a => match Spec.Unsupported.bad_action a with Some _ => Some None | None => None end
+  | EPositional => Some None
+  | ENot a | EPrec a => first_payload a
+  | EAnd a b | EOr a b | EList a b =>
+      match first_payload a with Some r => Some r | None => first_payload b end
+  | EGlobal _ => None
+  end.
+Definition payload_text (e : expr) : str :=
+  match first_payload (wrap e) with
+  | Some (Some u) => w "(" ++ debug_string u ++ w ")"
+  | _ => []
   end.
